@@ -85,9 +85,10 @@ Definition tagged_results (chunks : list (list A)) : list (nat * list B) :=
 Definition collect (delivered : list (nat * list B)) : list B :=
   concat (map snd (sort_by_index delivered)).
 
-(* the whole of pool.map(computation, sampling_points) for a given pool: the pool receives the function and the
-   index-tagged tasks and returns (index, result) pairs in completion order *)
-Definition parmap (pool : (list A -> list B) -> list (nat * list A) -> list (nat * list B))
+(* pool.map(computation, sampling_points) with mpire's DEFAULT chunking (n_splits = 4 * n_jobs, exact carry) — the
+   call koala made before fix 14cf9ed; the pool receives the function and the index-tagged tasks and returns
+   (index, result) pairs in completion order *)
+Definition parmap_default (pool : (list A -> list B) -> list (nat * list A) -> list (nat * list B))
            (n_jobs : positive) (xs : list A) : list B :=
   collect (pool computation (tag (chunk_tasks xs (4 * n_jobs)))).
 
@@ -107,6 +108,22 @@ Definition parmap_checked (pool : (list A -> list B) -> list (nat * list A) -> l
            (ceil_at : nat -> Z) (predicted : nat) (xs : list A) : option (list B) :=
   let chunks := chunk_tasks_by ceil_at xs in
   if Nat.eqb predicted (length chunks) then Some (collect (pool computation (tag chunks))) else None.
+
+(* compute_phase_diagram as it is NOW (phase_diagrams.py:145-150):
+     chunk_size = max(1, -(-len(sampling_points) // (4 * n_jobs)))
+     pool.map(computation, sampling_points, progress_bar=True, chunk_size=chunk_size)
+   With an integer chunk_size every quantity of chunk_tasks is a Python int: ceil(cur) = chunk_size in every
+   iteration and the carry is exact.  get_n_chunks = min(n_tasks, math.ceil(n_tasks / chunk_size)); the model uses
+   the exact value (the float quotient of two small integers cannot cross an integer; K compares it with mpire's). *)
+Definition koala_chunk_size (n : nat) (n_jobs : positive) : nat :=
+  Nat.max 1 ((n + 4 * Pos.to_nat n_jobs - 1) / (4 * Pos.to_nat n_jobs)).
+
+Definition n_chunks_exact (n cs : nat) : nat := Nat.min n ((n + cs - 1) / cs).
+
+Definition parmap (pool : (list A -> list B) -> list (nat * list A) -> list (nat * list B))
+           (n_jobs : positive) (xs : list A) : option (list B) :=
+  let cs := koala_chunk_size (length xs) n_jobs in
+  parmap_checked pool (fun _ => Z.of_nat cs) (n_chunks_exact (length xs) cs) xs.
 
 Definition serial (xs : list A) : list B := map f xs.
 
